@@ -16,7 +16,34 @@ from .report import Run, AnalysisError
 from .source import Repo, AnchorError, Unsupported
 
 
+def _loose(old):
+    """regular expression matching ``old`` whatever the spacing, line breaks and line continuations between its
+    characters (the sources are not formatted the way the edits were written)"""
+    import re
+    chars = []
+    i = 0
+    while i < len(old):
+        ch = old[i]
+        if ch == '\\' and i + 1 < len(old) and old[i + 1] == '\n':
+            i += 2
+            continue
+        if not ch.isspace():
+            chars.append(re.escape(ch))
+        i += 1
+    return re.compile(r'(?:\s|\\\n)*'.join(chars))
+
+
+def _loose_replace(text, old, new, k=0, n=1):
+    rx = _loose(old)
+    ms = list(rx.finditer(text))
+    if len(ms) != n:
+        return None
+    m_ = ms[k]
+    return text[:m_.start()] + new + text[m_.end():]
+
+
 def apply_edits(repo, edits):
+    import ast as _ast
     ov = {}
     for ed in edits:
         rel, old, new = ed[:3]
@@ -24,6 +51,17 @@ def apply_edits(repo, edits):
         if not m:
             return None
         text = ov.get(rel, m[0].text)
+        exact = text.count(old) == (ed[4] if len(ed) > 3 else 1)
+        if not exact:
+            res = _loose_replace(text, old, new, *(ed[3:5] if len(ed) > 3 else (0, 1)))
+            if res is None:
+                return None
+            try:
+                _ast.parse(res)
+            except SyntaxError:
+                return None
+            ov[rel] = res
+            continue
         if len(ed) > 3:
             # (rel, old, new, k, n): replace the k-th of exactly n occurrences
             k, n = ed[3], ed[4]
